@@ -328,22 +328,60 @@ theorem commit_index_safety_member_modulo_sides (root : K) (x : Member.Sys) (h :
     rw [if_pos (by omega), if_pos (by omega)] at this
     exact this
 
+/-- **index `k` of node `i`'s log is PROTECTED in the state `x`**: the log holds an entry at `k`, and NO APPEND REQUEST
+that has been sent (the ledger `sent` — the only append requests `Member.Enabled` lets a node handle, apart from stale
+ones) and that is not stale for the node (`q.term` is the node's term or a later one; a stale request is refused and
+leaves the log alone) CONFLICTS WITH THE NODE'S LOG AT OR BELOW `k` (`CommitRel.NoConf`: every entry of the request with
+an index `≤ k` carries the term the log holds at that index — so handling the request truncates nothing at or below
+`k`). A statement about the state and its ledger `sent` only — no ghost ledger. -/
+def Protected (x : Member.Sys) (i k : Nat) : Prop :=
+  1 ≤ k ∧ k ≤ (x.node i).log.entries.length ∧
+  ∀ q ∈ x.cm.rp.sent, ¬ q.term < (x.node i).term → NoConf (x.node i) q k
+
+/-- the ghost-ledger notion `MemberInv.ProtG` implies `Protected` — for ghost ledgers LINKED TO THE STATE by the invariant
+`MInv x G` (`MemberInv.protNoConf`; without the link `ProtG` says nothing: `AuditMember.protG_degenerate`) -/
+theorem protected_of_protG {x : Member.Sys} {G : Ghost} (hI : MInv x G) (hS : SideT x) {i k : Nat}
+    (hp : ProtG x G i k) : Protected x i k :=
+  ⟨hp.1, hp.2.1, fun _ hq hst => protNoConf hI hS hq hst hp⟩
+
 /-- **C08, every node uses the latest configuration of its log (modulo `SideC`).** In every reachable state, for every
 node (leader, candidate or follower; after completed steps, truncations by append requests, crashes and restarts):
 1. `configs.latest` is the LAST CONFIGURATION ENTRY OF THE NODE'S LOG (`MemberCommit.CfgLast`);
-2. the index of that entry is protected — no append request of a current or later term ever conflicts with the log at or
-   below it — or the configuration is pending: `configs.committed` is the configuration entry just before it
-   (`MemberFollow.Pend`), and the index of THAT entry is protected (so `revertConfig` after a truncation restores the
-   last configuration entry of the truncated log). -/
+2. the index of that entry is protected (`Protected`: no append request in `sent` of the node's current or a later term
+   conflicts with the node's log at or below it) — or the configuration is pending: `configs.committed` is the
+   configuration entry just before it (`MemberFollow.Pend`), and the index of THAT entry is protected (so `revertConfig`
+   after a truncation restores the last configuration entry of the truncated log);
+3. what protection means for the next step: when the node handles ANY delivered operation to completion — without
+   failure if it is candidate or leader —, its log up to a protected index is unchanged (nothing at or below the index is
+   truncated or replaced).
+(Statement 2 used to read `∃ G, G.root = root ∧ ∀ i, ProtG x G i … ∨ …` with a ghost ledger `G` constrained by its root
+only — satisfied by a degenerate `G` in every state, `AuditMember.protG_degenerate`; it now states the consequence
+`MemberInv.protNoConf` draws from `ProtG` for the ledger of the invariant.) -/
 theorem cfg_latest_member_modulo_sides (root : K) (x : Member.Sys) (h : ReachableNF (SideC root) x) :
     CfgLatest x ∧
-    ∃ G, G.root = root ∧ ∀ i, ProtG x G i (x.node i).configs.latest.index ∨
+    (∀ i, Protected x i (x.node i).configs.latest.index ∨
       (MemberFollow.Pend (x.node i).log.entries (x.node i).configs ∧
-        ProtG x G i (x.node i).configs.committed.index) := by
+        Protected x i (x.node i).configs.committed.index)) ∧
+    (∀ i k, Protected x i k → ∀ op ra ord src, Member.Enabled x i op src →
+      ((x.node i).role ≠ .follower → ((x.node i).step op ra ord).panicked = none) →
+      ((x.node i).step op ra ord).log.entries.take k = (x.node i).log.entries.take k) := by
   obtain ⟨G, hI, hr⟩ := minv_reachable root x h
-  refine ⟨hI.cfg.cl, G, hr, fun i => ?_⟩
-  exact (hI.cfg.sp i).imp id (fun p => ⟨p, pend_prot hI.rp hI.tree.rootA hI.tree.rootOnly hI.recs.chain
-    (hI.node.termLe i) (hI.cfg.cl i) p⟩)
+  have hS := h.side.tree
+  refine ⟨hI.cfg.cl, fun i => ?_, fun i k hp op ra ord src he hnf => ?_⟩
+  · exact (hI.cfg.sp i).elim (fun p => Or.inl (protected_of_protG hI hS p))
+      (fun p => Or.inr ⟨p, protected_of_protG hI hS (pend_prot hI.rp hI.tree.rootA hI.tree.rootOnly hI.recs.chain
+        (hI.node.termLe i) (hI.cfg.cl i) p)⟩)
+  · obtain ⟨_, hk2, hnc⟩ := hp
+    have sc : SM x G i op ra ord src := ⟨hI, sideM_of h, he, hnf⟩
+    show sc.post.log.entries.take k = _
+    rcases SM.op_cases op with happ | ⟨q, rfl⟩
+    · obtain ⟨es, te, _, hl⟩ := sc.newM happ
+      rw [hl, List.take_append_of_le_length hk2]
+    · by_cases hst : q.term < (x.node i).term
+      · obtain ⟨s1, _⟩ := append_stale _ q ra ord hst
+        rw [show sc.post.log = _ from s1]
+      · obtain ⟨hq, fs⟩ := sc.fst hst
+        exact (fs.keep k hk2 (hnc q hq hst)).1
 
 /-! ### Examples (non-vacuity) -/
 
